@@ -1860,3 +1860,100 @@ let rec ctr_arity ctr f = function
 | fd :: rest ->
   (&&) ((||) (negb (ctr f)) (Nat.eqb fd.f_nparams (S O)))
     (ctr_arity ctr (S f) rest)
+
+type pset = var list
+
+(** val pmem : var -> pset -> bool **)
+
+let pmem x p =
+  existsb (var_eqb x) p
+
+(** val premove : var -> pset -> pset **)
+
+let premove x p =
+  filter (fun y -> negb (var_eqb x y)) p
+
+(** val pinter : pset -> pset -> pset **)
+
+let pinter p q =
+  filter (fun x -> pmem x q) p
+
+(** val cond_prot : cond -> pset -> (pset * pset) * bool **)
+
+let rec cond_prot c p =
+  match c with
+  | COpaque -> ((p, p), true)
+  | CNonNil x -> (((x :: p), p), true)
+  | CDeref (_, x) -> ((p, p), (pmem x p))
+  | CNot c1 ->
+    let (p0, ok) = cond_prot c1 p in let (pt, pf) = p0 in ((pf, pt), ok)
+  | CAnd (c1, c2) ->
+    let (p0, ok1) = cond_prot c1 p in
+    let (pt1, pf1) = p0 in
+    let (p1, ok2) = cond_prot c2 pt1 in
+    let (pt2, pf2) = p1 in ((pt2, (pinter pf1 pf2)), ((&&) ok1 ok2))
+  | COr (c1, c2) ->
+    let (p0, ok1) = cond_prot c1 p in
+    let (pt1, pf1) = p0 in
+    let (p1, ok2) = cond_prot c2 pf1 in
+    let (pt2, pf2) = p1 in (((pinter pt1 pt2), pf2), ((&&) ok1 ok2))
+
+(** val assigned : stmt -> var list **)
+
+let rec assigned = function
+| SSeq (a, b) -> app (assigned a) (assigned b)
+| SAssign (x, _) -> x :: []
+| SCall (_, x0, _, _) -> (match x0 with
+                          | Some x -> x :: []
+                          | None -> [])
+| SIf (_, a, b) -> app (assigned a) (assigned b)
+| SWhile (_, b) -> assigned b
+| _ -> []
+
+(** val opt_inter : pset option -> pset option -> pset option **)
+
+let opt_inter o1 o2 =
+  match o1 with
+  | Some p -> (match o2 with
+               | Some q -> Some (pinter p q)
+               | None -> o1)
+  | None -> o2
+
+(** val stmt_prot : stmt -> pset -> pset option * bool **)
+
+let rec stmt_prot st p =
+  match st with
+  | SSkip -> ((Some p), true)
+  | SSeq (a, b) ->
+    let (o, ok1) = stmt_prot a p in
+    (match o with
+     | Some p1 -> let (o0, ok2) = stmt_prot b p1 in (o0, ((&&) ok1 ok2))
+     | None -> (None, ok1))
+  | SAssign (x, a) ->
+    ((Some
+      (match a with
+       | ANil -> premove x p
+       | ANew -> x :: p
+       | AVar y -> if pmem y p then x :: p else premove x p)), true)
+  | SCall (_, x, _, _) ->
+    ((Some (match x with
+            | Some y -> premove y p
+            | None -> p)), true)
+  | SDeref (_, x) -> ((Some p), (pmem x p))
+  | SIf (c, a, b) ->
+    let (p0, okc) = cond_prot c p in
+    let (pt, pf) = p0 in
+    let (oa, oka) = stmt_prot a pt in
+    let (ob, okb) = stmt_prot b pf in
+    ((opt_inter oa ob), ((&&) ((&&) okc oka) okb))
+  | SWhile (c, body) ->
+    let p' = filter (fun x -> negb (pmem x (assigned body))) p in
+    let (p0, okc) = cond_prot c p' in
+    let (pt, pf) = p0 in
+    let (_, okb) = stmt_prot body pt in ((Some pf), ((&&) okc okb))
+  | SReturn _ -> (None, true)
+
+(** val guarded : program -> bool **)
+
+let guarded p =
+  forallb (fun fd -> snd (stmt_prot fd.f_body [])) p.p_funcs
